@@ -48,6 +48,8 @@
 #include <set>
 #include <sys/ioctl.h>
 #include <linux/sockios.h>
+#include <linux/tcp.h>
+#include <netinet/in.h>
 
 using namespace vh;
 
@@ -402,8 +404,8 @@ struct World {
         outstandingIds.clear();
     }
 
-    // transitional socket states count as "in flight" only for a while: a client that received see-other-host on a TLS link
-    // stays in ConnectingState for ever (finding), and the harness must not wait for it
+    // Socket states in transition (looking up, connecting, closing) are "in flight"; they always resolve on loopback, the
+    // deadline in settle() is only a safety net.
     bool transitional = false;
     bool pending(QSslSocket *s)
     {
@@ -418,6 +420,20 @@ struct World {
         if (ioctl(fd, SIOCOUTQNSD, &n) == 0 && n > 0) return true;   // not yet sent (acknowledgement delays do not matter)
         return false;
     }
+    // bytes one end has put on the wire that the other end's kernel has not yet received (under heavy load loopback
+    // delivery can be deferred): compared through the kernel's own per-socket counters
+    static bool inFlight(QSslSocket *from, QSslSocket *to)
+    {
+        if (!from || !to || from->state() != QAbstractSocket::ConnectedState || to->state() != QAbstractSocket::ConnectedState) return false;
+        if (from->localPort() != to->peerPort() || from->peerPort() != to->localPort()) return false;
+        struct tcp_info a, b;
+        socklen_t la = sizeof a, lb = sizeof b;
+        memset(&a, 0, sizeof a); memset(&b, 0, sizeof b);
+        if (getsockopt(int(from->socketDescriptor()), IPPROTO_TCP, TCP_INFO, &a, &la) != 0) return false;
+        if (getsockopt(int(to->socketDescriptor()), IPPROTO_TCP, TCP_INFO, &b, &lb) != 0) return false;
+        if (la < offsetof(struct tcp_info, tcpi_bytes_sent) + sizeof a.tcpi_bytes_sent) return false;   // old kernel: no counter
+        return (a.tcpi_bytes_sent - a.tcpi_bytes_retrans) > b.tcpi_bytes_received;
+    }
 
     // pump the event loop until nothing is in flight in either direction
     void settle()
@@ -431,23 +447,27 @@ struct World {
             QCoreApplication::sendPostedEvents(nullptr, QEvent::DeferredDelete);
             noteConns();
             transitional = false;
-            bool pend = pending(client->strm()->socket());
+            auto *cs = client->strm()->socket();
+            bool pend = pending(cs);
             for (Server *s : { &srvA, &srvB })
                 for (auto &c : s->conns)
-                    if (!c->closed && pending(c->sock)) pend = true;
+                    if (!c->closed) {
+                        if (pending(c->sock)) pend = true;
+                        if (inFlight(cs, c->sock) || inFlight(c->sock, cs)) pend = true;
+                    }
             // a TLS handshake in progress is "in flight" as well
             auto c = conn();
             {
-                auto *cs = client->strm()->socket();
                 bool clientHandshaking = cs->state() == QAbstractSocket::ConnectedState && cs->mode() == QSslSocket::SslClientMode && !cs->isEncrypted();
                 if (c && !c->closed && clientHandshaking && (c->garbageOnHello || c->awaitHello || (c->tlsStarted && !c->tlsDone && !c->tlsFailed))) pend = true;
                 if (c && !c->closed && c->tlsDone && clientHandshaking) pend = true;
             }
             if (any || act != before) quietSince.restart();
-            if (transitional && quietSince.elapsed() < 40) pend = true;
+            if (transitional && quietSince.elapsed() < 10000) pend = true;
             if (any || act != before || pend) idle = 0; else idle++;
             if (!any && act == before) QThread::usleep(pend ? 200 : 20);
-            if (t.elapsed() > 1500) { settleTimeouts++; fprintf(stderr, "harness: settle timeout (any=%d pend=%d)\n", any, pend); break; }
+            // generous deadline (the machine may be heavily loaded); a miss makes the whole experiment run again once
+            if (t.elapsed() > 20000) { settleTimeouts++; fprintf(stderr, "harness: settle deadline missed (any=%d pend=%d)\n", any, pend); break; }
             iters++;
         }
         if (verbose) fprintf(stderr, "  settle: %d iterations, %lld us\n", iters, (long long)(t.nsecsElapsed() / 1000));
@@ -756,12 +776,52 @@ static int runManual(const std::string &cfgStr, const std::string &script)
 static long long g_scripts = 0, g_ops = 0;
 static std::map<std::string, int> g_failPrinted;
 static bool g_stuckAfterTlsRedirect = false;   // this experiment delivered see-other-host on a TLS link (client hangs in Connecting: finding)
+// Output of one experiment is buffered: if a settle deadline was missed (overloaded machine) the experiment is discarded and
+// run again once; only the second miss is let through (and then shows up as a disagreement or an oracle failure).
+static std::string g_buf;
+static bool g_buffering = false;
+static void emitLine(const std::string &l) { if (g_buffering) g_buf += l; else fputs(l.c_str(), stdout); }
+static void outCorr(const std::string &op, const std::string &obs) { emitLine("C " + op + "\t" + obs + "\n"); }
+static void outFail(const std::string &key, const std::string &replay) { emitLine("O FAIL " + key + "\t" + replay + "\n"); }
+static void outSample(const std::string &x) { if (samplesLeft() > 0) { samplesLeft()--; emitLine("X " + x + "\n"); } }
+
 static void fail(std::string key, const std::string &replay)
 {
-    // everything that goes wrong in an experiment after that point is a consequence of the same hang
+    // everything that goes wrong in an experiment after the client got stuck behind a see-other-host over TLS is a consequence
+    // of that hang (set only when the client really did not come back, see Session::op)
     if (g_stuckAfterTlsRedirect && key.rfind("C10:", 0) == 0) key = "C10:stuck-after-see-other-host-over-tls";
     stat("fail:" + key);
-    if (g_failPrinted[key]++ < 3) oracleFail(key, replay);
+    if (g_failPrinted[key]++ < 3) outFail(key, replay);
+}
+
+struct Runner;
+template<class F>
+static void experiment(long long &settleTimeouts, Rng *rng, F body)
+{
+    for (int attempt = 0; attempt < 2; attempt++) {
+        auto statsSnap = stats();
+        auto passSnap = oraclePass();
+        auto samplesSnap = samplesLeft();
+        auto failSnap = g_failPrinted;
+        auto scriptsSnap = g_scripts, opsSnap = g_ops;
+        Rng rngSnap = rng ? *rng : Rng(0);
+        const long long t0 = settleTimeouts;
+        g_buf.clear();
+        g_buffering = true;
+        body();
+        g_buffering = false;
+        const bool missed = settleTimeouts != t0;
+        if (!missed || attempt == 1) {
+            fputs(g_buf.c_str(), stdout);
+            g_buf.clear();
+            if (missed) stat("deadline_missed_twice");
+            return;
+        }
+        stats() = statsSnap; oraclePass() = passSnap; samplesLeft() = samplesSnap; g_failPrinted = failSnap;
+        g_scripts = scriptsSnap; g_ops = opsSnap;
+        if (rng) *rng = rngSnap;
+        stat("experiments_repeated_after_missed_deadline");
+    }
 }
 
 struct Session {
@@ -780,7 +840,7 @@ struct Session {
         r.w.newClient(c);
         g_stuckAfterTlsRedirect = false;
         stat("time_us:newClient", t.nsecsElapsed() / 1000);
-        corr("reset " + c.str(), "ok");
+        outCorr("reset " + c.str(), "ok");
         g_scripts++;
     }
     std::string op(const std::string &o)
@@ -789,10 +849,12 @@ struct Session {
         printf("I %s\n", replay().c_str());
         fflush(stdout);
         QElapsedTimer t; t.start();
-        if (o == "redirect") { auto k = r.w.conn(); if (k && !k->closed && k->tlsDone) g_stuckAfterTlsRedirect = true; }
+        bool tlsRedirect = false;
+        if (o == "redirect") { auto k = r.w.conn(); tlsRedirect = k && !k->closed && k->tlsDone; }
         std::string obs = r.apply(o);
+        if (tlsRedirect && r.w.client->strm()->socket()->state() != QAbstractSocket::ConnectedState) g_stuckAfterTlsRedirect = true;
         stat("time_us:apply", t.nsecsElapsed() / 1000);
-        corr(o, obs);
+        outCorr(o, obs);
         g_ops++;
         stat("op:" + o.substr(0, o.find(' ')));
         return obs;
@@ -1059,27 +1121,32 @@ static void exploreC10(Runner &r, Rng &rng, bool thorough)
     struct Pair { const char *p1; int cut; const char *p2; int cfg; };
     for (Pair pr : { Pair { "legacy", -1, "sasl-bind", 0 }, Pair { "tls-redirect", -1, "sasl-bind", 0 }, Pair { "redirect-in-session", -1, "sasl-bind", 0 },
                      Pair { "sasl2-bind2-smr", 3, "sasl-bind-smr", 1 }, Pair { "sasl2-bind2-smr", 3, "sasl-bind-smr", 0 } }) {
-        Session s(r, cfgs[size_t(pr.cfg)]);
-        bool resumable = false;   // does the client hold a resumable stream (from the scripts' point of view); survives failed attempts
-        runAttempt(s, byName(pr.p1), pr.cut, true, resumable);
-        cutAndCheck(s, resumable);
-        runAttempt(s, byName(pr.p2), -1, false, resumable);
-        sample(s.replay());
-        stat("c10:runs");
+        experiment(r.w.settleTimeouts, nullptr, [&]() {
+            Session s(r, cfgs[size_t(pr.cfg)]);
+            bool resumable = false;   // does the client hold a resumable stream (from the scripts' point of view); survives failed attempts
+            runAttempt(s, byName(pr.p1), pr.cut, true, resumable);
+            cutAndCheck(s, resumable);
+            runAttempt(s, byName(pr.p2), -1, false, resumable);
+            outSample(s.replay());
+            stat("c10:runs");
+        });
     }
     // (1) every policy x every cut point, then a full attempt with the same policy
     for (size_t ci = 0; ci < cfgs.size(); ci++)
         for (auto &p : pols) {
             if (ci == 2 && (p.tls || p.auth == '2' || p.auth == 'b')) continue;
             for (int cut = 0; cut < 14; cut++) {
-                Session s(r, cfgs[ci]);
-                bool resumable = false;
-                auto a1 = runAttempt(s, p, cut, true, resumable);
-                bool lastCut = a1.reachedDone;   // the script was shorter than the cut: this is the cut of an established session
-                cutAndCheck(s, resumable);
-                auto a2 = runAttempt(s, p, -1, false, resumable);
-                if (p.auth != 'l' && a2.reachedDone && !a2.resumedNow && (s.r.w.iqStarted - s.r.w.iqFinished) != 0) fail("C10:request-outlives-new-session", s.replay());
-                stat("c10:runs");
+                bool lastCut = false;
+                experiment(r.w.settleTimeouts, nullptr, [&]() {
+                    Session s(r, cfgs[ci]);
+                    bool resumable = false;
+                    auto a1 = runAttempt(s, p, cut, true, resumable);
+                    lastCut = a1.reachedDone;   // the script was shorter than the cut: this is the cut of an established session
+                    cutAndCheck(s, resumable);
+                    auto a2 = runAttempt(s, p, -1, false, resumable);
+                    if (a2.reachedDone && !a2.resumedNow && (s.r.w.iqStarted - s.r.w.iqFinished) != 0) fail("C10:request-outlives-new-session", s.replay());
+                    stat("c10:runs");
+                });
                 if (lastCut) break;
             }
         }
@@ -1090,18 +1157,22 @@ static void exploreC10(Runner &r, Rng &rng, bool thorough)
             if (!thorough && rng.below(4) != 0) continue;
             for (int cut = 0; cut < 14; cut++) {
                 if (!thorough && rng.below(3) != 0 && cut > 1) continue;
-                Session s(r, cfgs[rng.below(2)]);
-                bool resumable = false;
-                auto a1 = runAttempt(s, p1, cut, rng.coin(), resumable);
-                cutAndCheck(s, resumable);
-                runAttempt(s, p2, -1, false, resumable);
-                if (rng.coin()) {
+                bool lastCut = false;
+                experiment(r.w.settleTimeouts, &rng, [&]() {
+                    Session s(r, cfgs[rng.below(2)]);
+                    bool resumable = false;
+                    auto a1 = runAttempt(s, p1, cut, rng.coin(), resumable);
+                    lastCut = a1.reachedDone;
                     cutAndCheck(s, resumable);
-                    runAttempt(s, pols[rng.below(uint32_t(pols.size()))], -1, false, resumable);
-                }
+                    runAttempt(s, p2, -1, false, resumable);
+                    if (rng.coin()) {
+                        cutAndCheck(s, resumable);
+                        runAttempt(s, pols[rng.below(uint32_t(pols.size()))], -1, false, resumable);
+                    }
+                    stat("c10:runs");
+                });
                 pairs++;
-                stat("c10:runs");
-                if (a1.reachedDone) break;
+                if (lastCut) break;
             }
         }
     stat("c10:pair-runs", pairs);
@@ -1154,16 +1225,18 @@ struct TlsUnavailableCheck {
 
 static void runC04Script(Runner &r, const Cfg &cfg, const std::vector<std::string> &script)
 {
-    Session s(r, cfg);
-    s.op("connect");
-    TlsUnavailableCheck chk;
-    for (auto &o : script) {
-        chk.before(s, o);
-        s.op(o);
-        chk.after(s);
-    }
-    oracleC04(s);
-    if (samplesLeft() > 0) sample(s.replay());
+    experiment(r.w.settleTimeouts, nullptr, [&]() {
+        Session s(r, cfg);
+        s.op("connect");
+        TlsUnavailableCheck chk;
+        for (auto &o : script) {
+            chk.before(s, o);
+            s.op(o);
+            chk.after(s);
+        }
+        oracleC04(s);
+        outSample(s.replay());
+    });
 }
 
 static void exploreC04(Runner &r, Rng &rng, bool thorough)
@@ -1202,7 +1275,7 @@ static void exploreC04(Runner &r, Rng &rng, bool thorough)
     const auto &F = alphabetFull();
     auto pols = policies();
     int nRandom = thorough ? 6000 : 700; if (getenv("NEG_SMALL")) nRandom = 20;
-    for (int n = 0; n < nRandom; n++) {
+    for (int n = 0; n < nRandom; n++) experiment(r.w.settleTimeouts, &rng, [&]() {
         Cfg c;
         c.tls = int(rng.below(3)); if (rng.below(3) == 0) c.tls = 2;
         c.sasl2 = rng.below(4) != 0; c.sasl = rng.below(4) != 0; c.nonsasl = rng.below(3) != 0;
@@ -1235,7 +1308,7 @@ static void exploreC04(Runner &r, Rng &rng, bool thorough)
         }
         oracleC04(s);
         stat("c04:random-scripts");
-    }
+    });
 }
 
 int main(int argc, char **argv)
